@@ -277,7 +277,9 @@ Fixpoint poll (t : nat) (i : inst) (v : env) {struct i} : inst * bool * env :=
   | IIf f memo c a b br ch =>
       if due t f then
         let br' := nz (eval (sigs v) c) in
-        if memo && Bool.eqb br' br then (IIf (clear f) memo c a b br ch, false, v)   (* memo unchanged: no run *)
+        if memo && Bool.eqb br' br then
+          (* memo unchanged: the closure does not run *)
+          let '(ch', rep, v1) := poll t ch v in (IIf (clear f) memo c a b br ch', rep, v1)
         else
           let v1 := logged (lbl f) v in
           if Bool.eqb br' br then
@@ -301,6 +303,18 @@ Fixpoint poll_list (t : nat) (l : list inst) (v : env) : list inst * nat * env :
   | k :: l => let '(k', rep, v1) := poll t k v in
               let '(ks', mk, v2) := poll_list t l v1 in
               (k' :: ks', ((if rep then 2 else 0) + mk)%nat, v2)
+  end.
+
+(** the view an instance is the state of *)
+Fixpoint view_of (i : inst) : rview :=
+  match i with
+  | IStatic _ _ n => RStatic n
+  | IText f e _ _ _ => RText (lbl f) e
+  | IElem _ _ ps ks =>
+      RElem (map (fun '(PI k e f _) => (k, lbl f, e)) ps)
+            ((fix go (l : list inst) : list rview :=
+                match l with [] => [] | k :: l => view_of k :: go l end) ks)
+  | IIf f memo c a b _ _ => RIf (lbl f) memo c a b
   end.
 
 (** * The mounted system *)
